@@ -368,3 +368,145 @@ Proof.
   - exact (spec_body_accepts _ _ _ _ _ _ P Bd A).
   - pose proof (spec_body_accepts e t ssig sb _ _ P Bd A) as E. destruct t; try exact E. contradiction.
 Qed.
+
+(* ------------------------------------------------------------------ (b) completeness, script kinds *)
+Lemma p2sh_others : forall spk h,
+    spk_is_p2sh spk = Some h ->
+    spk_is_p2pk spk = None /\ spk_is_p2pkh spk = None /\ spk_is_p2wpkh spk = None /\ spk_is_p2wsh spk = None /\
+    spk_is_p2tr spk = None /\ spk = p2sh_bytes h.
+Proof.
+  intros spk h H. unfold spk_is_p2sh in H.
+  destruct spk as [|a [|b0 rest]]; [discriminate| |].
+  { exfalso. destruct a as [|q]; [discriminate|]. do 8 (destruct q as [q|q|]; try discriminate). }
+  destruct a as [|q]; [discriminate|]. do 8 (destruct q as [q|q|]; try discriminate).
+  destruct b0 as [|q]; [discriminate|]. do 5 (destruct q as [q|q|]; try discriminate).
+  repeat (split; [reflexivity|]).
+  destruct (rev rest) as [|x hr] eqn:R; [discriminate|].
+  destruct x as [|q]; [discriminate|]. do 8 (destruct q as [q|q|]; try discriminate).
+  destruct (N.eqb (blen hr) 20); [|discriminate]. injection H as <-.
+  unfold p2sh_bytes. f_equal. f_equal. rewrite <- (rev_involutive rest), R. reflexivity.
+Qed.
+
+Lemma p2wsh_not_wpkh : forall rb prog, spk_is_p2wsh rb = Some prog -> spk_is_p2wpkh rb = None.
+Proof. intros rb prog H. destruct (p2wsh_shape _ _ H) as [-> _]. reflexivity. Qed.
+
+Lemma wit_stack_of_rev : forall wit sb items,
+    rev wit = sb :: items -> rev (map elem_of wit) = elem_of sb :: rev (map elem_of (rev items)).
+Proof.
+  intros wit sb items RW. rewrite <- (rev_involutive wit), RW. cbn [rev]. rewrite map_app, rev_app_distr. reflexivity.
+Qed.
+
+(* sh-wsh: the scriptSig lexes into pushes / OP_1 and its top element is a witness-v0 script-hash program *)
+Lemma from_txdata_complete_shwsh :
+  forall e fe co spk ssig wit h el r prog,
+    spk_is_p2sh spk = Some h ->
+    ssig_stack_of ssig = Some (el :: r) -> spk_is_p2wsh (conc el) = Some prog ->
+    verify_spend e co spk ssig wit = true ->
+    (forall sb, hd_error (rev wit) = Some sb -> f_dec fe DSegv0 sb = true) ->
+    exists sb st, from_txdata e fe spk ssig wit = FOk (InScript sb StShWsh) st (Some sb) /\ rev wit = sb :: map conc st.
+Proof.
+  intros e fe co spk ssig wit h el r prog SH SS RW V D.
+  destruct (p2sh_others _ _ SH) as (PK & PKH & WP & W & TR & SPK).
+  unfold verify_spend in V. rewrite W, WP, SH in V. unfold verify_sh in V.
+  destruct (ssig_bridge _ _ SS) as (ss & P & PO). rewrite P, PO in V. cbn [map] in V.
+  rewrite RW in V.
+  apply andb_true_iff in V. destruct V as [_ V].
+  apply andb_true_iff in V. destruct V as [V V2]. apply andb_true_iff in V. destruct V as [HB _].
+  destruct r; [|discriminate]. cbn [map] in V2. unfold verify_wsh in V2.
+  destruct (rev wit) as [|sb items] eqn:RWT; [discriminate|].
+  repeat (apply andb_true_iff in V2; destruct V2 as [V2 ?]).
+  destruct el as [| |rb]; try discriminate. cbn [conc] in *.
+  exists sb, (rev (map elem_of (rev items))). split.
+  - unfold from_txdata. rewrite SS, PK, PKH, WP, W, TR, SH. cbv beta iota zeta.
+    apply ftx_bytes_eqb_eq in HB. rewrite SPK, HB, ftx_bytes_eqb_refl. cbn [negb].
+    rewrite (p2wsh_not_wpkh _ _ RW), RW. rewrite (wit_stack_of_rev _ _ _ RWT). rewrite conc_elem_of.
+    rewrite (D sb eq_refl). cbn [negb].
+    destruct (p2wsh_shape _ _ RW) as [-> _]. apply ftx_bytes_eqb_eq in V2. rewrite V2.
+    unfold p2wsh_bytes. rewrite ftx_bytes_eqb_refl. reflexivity.
+  - rewrite conc_wit_stack, rev_involutive. reflexivity.
+Qed.
+
+(* sh (legacy script): the top element is neither witness program; the redeem script decodes in Legacy *)
+Lemma from_txdata_complete_sh :
+  forall e fe co spk ssig wit h el r,
+    spk_is_p2sh spk = Some h ->
+    ssig_stack_of ssig = Some (el :: r) -> spk_is_p2wsh (conc el) = None -> spk_is_p2wpkh (conc el) = None ->
+    verify_spend e co spk ssig wit = true ->
+    f_dec fe DLegacy (conc el) = true ->
+    from_txdata e fe spk ssig wit = FOk (InScript (conc el) StSh) r (Some (conc el)).
+Proof.
+  intros e fe co spk ssig wit h el r SH SS RW RWP V D.
+  destruct (p2sh_others _ _ SH) as (PK & PKH & WP & W & TR & SPK).
+  unfold verify_spend in V. rewrite W, WP, SH in V. unfold verify_sh in V.
+  destruct (ssig_bridge _ _ SS) as (ss & P & PO). rewrite P, PO in V. cbn [map] in V.
+  rewrite RW, RWP in V.
+  apply andb_true_iff in V. destruct V as [_ V].
+  apply andb_true_iff in V. destruct V as [V V2]. apply andb_true_iff in V. destruct V as [HB _].
+  destruct wit; [|discriminate].
+  apply ftx_bytes_eqb_eq in HB.
+  unfold from_txdata. rewrite SS, PK, PKH, WP, W, TR, SH. cbn [map rev]. cbv beta iota zeta.
+  destruct el as [| |rb]; cbn [conc] in *.
+  - rewrite D. cbn [negb]. rewrite SPK, HB, ftx_bytes_eqb_refl. reflexivity.
+  - rewrite D. cbn [negb]. rewrite SPK, HB, ftx_bytes_eqb_refl. reflexivity.
+  - rewrite SPK at 1. rewrite HB, ftx_bytes_eqb_refl. cbn [negb]. rewrite RWP, RW. rewrite D. cbn [negb].
+    rewrite SPK, ftx_bytes_eqb_refl. reflexivity.
+Qed.
+
+(* bare: the scriptPubKey is none of the standard templates and decodes in BareCtx *)
+Lemma from_txdata_complete_bare :
+  forall e fe co spk ssig wit st,
+    spk_is_p2pk spk = None -> spk_is_p2pkh spk = None -> spk_is_p2wpkh spk = None -> spk_is_p2wsh spk = None ->
+    spk_is_p2tr spk = None -> spk_is_p2sh spk = None ->
+    ssig_stack_of ssig = Some st ->
+    verify_spend e co spk ssig wit = true ->
+    f_dec fe DBare spk = true ->
+    from_txdata e fe spk ssig wit = FOk (InScript spk StBare) st (Some spk).
+Proof.
+  intros e fe co spk ssig wit st PK PKH WP W TR SH SS V D.
+  unfold verify_spend in V. rewrite W, WP, SH, TR in V. unfold verify_bare in V.
+  destruct wit; [|discriminate].
+  unfold from_txdata. rewrite SS, PK, PKH, WP, W, TR, SH. cbn [map rev]. cbv beta iota zeta. rewrite D. reflexivity.
+Qed.
+
+Lemma p2tr_others : forall spk k,
+    spk_is_p2tr spk = Some k ->
+    spk_is_p2pk spk = None /\ spk_is_p2pkh spk = None /\ spk_is_p2wpkh spk = None /\ spk_is_p2wsh spk = None /\
+    spk_is_p2sh spk = None.
+Proof.
+  intros spk k H. unfold spk_is_p2tr in H.
+  destruct spk as [|a [|b0 rest]]; [discriminate| |].
+  { exfalso. destruct a as [|q]; [discriminate|]. do 7 (destruct q as [q|q|]; try discriminate). }
+  destruct a as [|q]; [discriminate|]. do 7 (destruct q as [q|q|]; try discriminate).
+  repeat split; reflexivity.
+Qed.
+
+(* tr script path (at least two witness items, the last one is the control block): the output key and the
+   control block parse, the leaf decodes in Tap, and the implementation's commitment check agrees with the
+   specification's on this control block *)
+Lemma from_txdata_complete_tr :
+  forall e fe co spk ssig wit k cb sb items,
+    spk_is_p2tr spk = Some k -> rev wit = cb :: sb :: items ->
+    verify_spend e co spk ssig wit = true ->
+    f_xonly fe k = true -> cb_decode_ok fe cb = true -> f_dec fe DTap sb = true ->
+    (co sb cb = true -> f_commit fe sb cb = true) ->
+    exists st, from_txdata e fe spk ssig wit = FOk (InScript sb StTr) st (Some sb) /\ items = map conc st.
+Proof.
+  intros e fe co spk ssig wit k cb sb items TR RW V X CB D CO.
+  destruct (p2tr_others _ _ TR) as (PK & PKH & WP & W & SH).
+  unfold verify_spend in V. rewrite W, WP, SH, TR in V. unfold verify_tr in V.
+  destruct ssig; [|discriminate]. rewrite RW in V.
+  destruct cb as [|c [|c2 cr]]; [discriminate CB|cbn in CB; discriminate CB|].
+  destruct (N.eqb c 80) eqn:NA.
+  { apply N.eqb_eq in NA. subst c. discriminate V. }
+  rewrite (not_annex _ c (c2 :: cr) _ _ NA) in V.
+  apply andb_true_iff in V. destruct V as [V _]. apply andb_true_iff in V. destruct V as [V _].
+  apply andb_true_iff in V. destruct V as [V _]. apply CO in V.
+  exists (rev (map elem_of (rev items))). split.
+  - unfold from_txdata. cbn [ssig_stack_of length lex_bytes elems_of_toks]. rewrite PK, PKH, WP, W, TR.
+    cbv beta iota zeta. rewrite X. cbn [negb].
+    assert (WS : rev (map elem_of wit) = EPush (c :: c2 :: cr) :: elem_of sb :: rev (map elem_of (rev items))).
+    { rewrite <- (rev_involutive wit), RW. cbn [rev]. rewrite !map_app, !rev_app_distr. reflexivity. }
+    rewrite WS. cbv beta iota zeta. rewrite NA. cbn [andb]. rewrite CB. cbn [negb].
+    rewrite conc_elem_of, D, V. reflexivity.
+  - rewrite conc_wit_stack, rev_involutive. reflexivity.
+Qed.
